@@ -56,6 +56,8 @@ type memConn struct {
 	closeOnce sync.Once
 	dlMu      sync.Mutex
 	deadline  time.Time
+	wdelay    atomic.Int64 // slow link: every write of this end takes this long (ns)
+	wblock    atomic.Bool  // blocked link: a write of this end blocks until the transport is closed
 }
 
 func newLink(seed uint64) (*memConn, *memConn, *link) {
@@ -109,6 +111,17 @@ func (c *memConn) WriteMsg(b []byte) error {
 	case <-c.closed:
 		return net.ErrClosed
 	default:
+	}
+	if c.wblock.Load() {
+		<-c.closed
+		return net.ErrClosed
+	}
+	if d := c.wdelay.Load(); d > 0 {
+		select {
+		case <-c.closed:
+			return net.ErrClosed
+		case <-time.After(time.Duration(d)):
+		}
 	}
 	if c.l.dead.Load() {
 		return nil
@@ -294,11 +307,18 @@ func runScen(s scen) {
 			}
 		}
 		if setupOK {
+			// the Accept goroutine outlives a timed-out attempt: it must not touch the
+			// variables the next attempt reassigns (sm, st)
+			smA := sm
+			got := make(chan tubes.Tube, 1)
 			ok, _, _ := within(3*time.Second, func() error {
-				t, err := sm.Accept()
-				st = t
+				t, err := smA.Accept()
+				got <- t
 				return err
 			})
+			if ok {
+				st = <-got
+			}
 			setupOK = ok && st != nil
 			if cr != nil && setupOK {
 				cr.WaitForInit()
@@ -697,15 +717,219 @@ func runFinOvertake(id int, xIsClient bool, yClosesFirst bool) {
 	hv.Flush()
 }
 
+// Full sender queue of a Reliable tube (capacity 1024) while its only consumer, Reliable.send, is
+// slowed down by the link: the peer's data frame is duplicated `flood` times (a duplication storm
+// / misbehaving peer; every data frame, duplicate or not, is acknowledged through the tube's
+// sender queue by the muxer receiver holding the tube lock).  variant "slow": every transport
+// write of the flooded end takes 5 ms (never blocks for good); "blocked": writes block until the
+// transport is closed (Stop's forced close does that).  Then Close and Stop on the flooded end.
+// Oracle: every call returns within the bound, the tube is closed after Stop, no goroutine left.
+func runFullQueue(id int, variant string, flood int) (okRun bool) {
+	desc := fmt.Sprintf("#%d full-sender-queue link=%s duplicates=%d ops=[c.Write x3 (slow link only);c.Close;c.Stop;s.Stop]", id, variant, flood)
+	fmt.Fprintf(os.Stderr, "START %s\n", desc)
+	goBefore := runtime.NumGoroutine()
+	ca, cb, _ := newLink(uint64(id) + 991)
+	cm := tubes.Client(ca, &tubes.Config{Log: quiet()})
+	sm := tubes.Server(cb, &tubes.Config{Log: quiet()})
+	v := verdict{ok: true}
+	fail := func(sig, what string) {
+		if v.ok {
+			v = verdict{false, sig, what}
+		}
+	}
+	var rs []string
+	note := func(f string, a ...interface{}) { rs = append(rs, fmt.Sprintf(f, a...)) }
+	ctube, err := cm.CreateReliableTube(common.ExecTube)
+	var stube *tubes.Reliable
+	if err == nil {
+		ok, _, _ := within(3*time.Second, func() error {
+			t, e := sm.Accept()
+			if e == nil {
+				stube = t.(*tubes.Reliable)
+			}
+			return e
+		})
+		if !ok || stube == nil {
+			err = fmt.Errorf("accept")
+		}
+	}
+	payload := bytes.Repeat([]byte("q"), 64)
+	var captured []byte
+	if err == nil {
+		ctube.WaitForInit()
+		stube.WaitForInit()
+		cb.fmu.Lock()
+		cb.drop = func(b []byte) bool {
+			if captured == nil && len(b) == 12+len(payload) && bytes.Equal(b[12:], payload) {
+				captured = append([]byte(nil), b...)
+			}
+			return false
+		}
+		cb.fmu.Unlock()
+		stube.Write(payload)
+		buf := make([]byte, 256)
+		okr, _, _ := within(3*time.Second, func() error { _, e := io.ReadFull(ctube, buf[:len(payload)]); return e })
+		cb.fmu.Lock()
+		cb.drop = nil
+		got := captured
+		cb.fmu.Unlock()
+		if !okr || got == nil {
+			err = fmt.Errorf("capture")
+		}
+	}
+	if err != nil {
+		hv.Emit(hv.Case{Class: "setup-skipped", Desc: desc + " => setup failed (skipped)", Spec: true})
+		hv.Flush()
+		within(bound, func() error { cm.Stop(); return nil })
+		within(bound, func() error { sm.Stop(); return nil })
+		return true
+	}
+	time.Sleep(50 * time.Millisecond) // let the ACK of the payload leave before the link slows down
+	if variant == "blocked" {
+		ca.wblock.Store(true)
+	} else {
+		ca.wdelay.Store(int64(5 * time.Millisecond))
+	}
+	for i := 0; i < flood; i++ {
+		select {
+		case ca.in <- captured:
+		default:
+		}
+	}
+	type r3 struct {
+		ok bool
+		e  string
+		d  time.Duration
+	}
+	// While the flood lasts the receiver re-fills the queue within microseconds after every frame
+	// Reliable.send takes out.  On the slow link three Writes signal windowOpen during the flood, so
+	// that send's select takes its window branch (which needs the tube lock) while the queue is full;
+	// the retransmission ticker (its period doubles on an idle tube) may fire as well.
+	var wres []chan r3
+	if variant == "slow" {
+		time.Sleep(100 * time.Millisecond)
+		for i := 0; i < 3; i++ {
+			ch := make(chan r3, 1)
+			go func() {
+				o, e, d := within(bound, func() error { _, e := ctube.Write([]byte("w")); return e })
+				ch <- r3{o, e, d}
+			}()
+			wres = append(wres, ch)
+			time.Sleep(60 * time.Millisecond)
+		}
+		time.Sleep(320 * time.Millisecond)
+	} else {
+		time.Sleep(600 * time.Millisecond)
+	}
+	st0, _, _, okS := func() (int, bool, bool, bool) {
+		var a int
+		var b, c bool
+		ok, _, _ := within(time.Second, func() error { a, b, c = ctube.VerifShutdownState(); return nil })
+		return a, b, c, ok
+	}()
+	note("stateBefore=%d(sampled=%v)", st0, okS)
+	qn, qcap := ctube.VerifSenderQueue()
+	note("senderQueue=%d/%d", qn, qcap)
+	chClose, chStop := make(chan r3, 1), make(chan r3, 1)
+	go func() { o, e, d := within(bound, func() error { return ctube.Close() }); chClose <- r3{o, e, d} }()
+	time.Sleep(20 * time.Millisecond)
+	go func() { o, e, d := within(bound, func() error { cm.Stop(); return nil }); chStop <- r3{o, e, d} }()
+	rc, rstop := <-chClose, <-chStop
+	note("c.Close=%v/%q(%dms)", rc.ok, rc.e, rc.d.Milliseconds())
+	note("c.Stop=%v(%dms)", rstop.ok, rstop.d.Milliseconds())
+	wok := true
+	for i, ch := range wres {
+		rw := <-ch
+		note("c.Write%d=%v/%q(%dms)", i, rw.ok, rw.e, rw.d.Milliseconds())
+		wok = wok && rw.ok
+	}
+	okRun = rc.ok && rstop.ok && wok
+	blocked := ""
+	if !okRun {
+		// where the goroutines of the code under test are parked (evidence for the replay)
+		buf := make([]byte, 1<<20)
+		buf = buf[:runtime.Stack(buf, true)]
+		for _, g := range strings.Split(string(buf), "\n\n") {
+			if !strings.Contains(g, "hop/tubes.") {
+				continue
+			}
+			var fns []string
+			for _, ln := range strings.Split(g, "\n") {
+				if strings.HasPrefix(ln, "\t") || strings.HasPrefix(ln, "goroutine ") || strings.HasPrefix(ln, "created by") {
+					continue
+				}
+				if i := strings.LastIndex(ln, "("); i > 0 {
+					ln = ln[:i]
+				}
+				if j := strings.LastIndex(ln, "/"); j >= 0 {
+					ln = ln[j+1:]
+				}
+				fns = append(fns, ln)
+				if len(fns) == 6 {
+					break
+				}
+			}
+			if len(blocked) < 1500 {
+				blocked += strings.Join(fns, " < ") + " | "
+			}
+		}
+	}
+	if !okRun {
+		fail("C16:call-did-not-return-full-sender-queue", fmt.Sprintf("the tube's sender queue was filled by acknowledgements of %d duplicated data frames while the link was %s: Close returned=%v, Stop returned=%v, Writes returned=%v within %v (the muxer receiver blocks on the full queue holding the tube lock; the queue's only consumer Reliable.send waits for that lock in its ticker/window branch)", flood, variant, rc.ok, rstop.ok, wok, bound))
+	} else {
+		if rc.e != "" && rc.e != "EOF" {
+			fail("C16:close-error", "Close: "+rc.e)
+		}
+		okw, _, _ := within(bound, func() error { ctube.WaitForClose(); return nil })
+		st1, _, sig1 := ctube.VerifShutdownState()
+		note("WaitForClose=%v state=%d signalled=%v", okw, st1, sig1)
+		if !okw || st1 != 7 || !sig1 {
+			fail("C16:tube-not-closed-after-stop", fmt.Sprintf("after Stop: WaitForClose returned=%v tubeState=%d r.closed=%v", okw, st1, sig1))
+		}
+		if _, e := ctube.Write([]byte("late")); e == nil {
+			fail("C16:write-after-close-succeeded", "write after Stop succeeded")
+		}
+	}
+	oks, _, ds := within(bound, func() error { sm.Stop(); return nil })
+	note("s.Stop=%v(%dms)", oks, ds.Milliseconds())
+	if !oks {
+		fail("C16:call-did-not-return", "peer Stop did not return")
+		okRun = false
+	}
+	ca.Close()
+	cb.Close()
+	if okRun {
+		if goAfter := settle(goBefore); v.ok && goAfter > goBefore {
+			time.Sleep(1500 * time.Millisecond)
+			if goAfter = settle(goBefore); goAfter > goBefore {
+				fail("C16:goroutine-leak", fmt.Sprintf("goroutines before=%d after=%d", goBefore, goAfter))
+			}
+		}
+	}
+	full := desc + " => " + strings.Join(rs, ", ")
+	fn, coq := "", ""
+	if variant == "blocked" && qn == qcap && okRun {
+		// the model's history: queue full behind a blocked write, Close, forced close, drain
+		st1, _, sig1 := ctube.VerifShutdownState()
+		fn, coq = "c16_fullq_ok", hv.Tuple(hv.Ni(qcap), hv.Ni(qn), hv.Bools([]bool{rc.ok, rstop.ok, st1 == 7, sig1}))
+	}
+	hv.Emit(hv.Case{Fn: fn, Coq: coq, Class: "full-sender-queue", Desc: full, Spec: v.ok, Sig: v.sig, What: v.what, NT: qn == qcap, Key: full,
+		Replay: map[string]interface{}{"scenario": desc, "results": rs, "parked_goroutines": blocked}})
+	hv.Flush()
+	return okRun
+}
+
 // Locally created (requesting side) Unreliable tubes closed around the arrival of the peer's RESP.
 // The peer's outgoing frames are held (latency) so that the tube is still `created` when the local
 // calls start; variants:
-//   gated-close-after-resp  the initiation goroutine is held at the yield point ut.initiate.initiated after
-//                           the RESP made the tube `initiated`; Close swaps the state and reaches its
-//                           wait for initiateDone; only then the initiation goroutine continues
-//   parked-write / parked-read  a goroutine parked in Write / Read (waiting for initiation) calls Close
-//                           as soon as its call returns (run with GOMAXPROCS(1) and default)
-//   close-while-created     Close before the RESP
+//
+//	gated-close-after-resp  the initiation goroutine is held at the yield point ut.initiate.initiated after
+//	                        the RESP made the tube `initiated`; Close swaps the state and reaches its
+//	                        wait for initiateDone; only then the initiation goroutine continues
+//	parked-write / parked-read  a goroutine parked in Write / Read (waiting for initiation) calls Close
+//	                        as soon as its call returns (run with GOMAXPROCS(1) and default)
+//	close-while-created     Close before the RESP
+//
 // Oracle (property text): every call returns within the bound; the first Close gives nil and a second
 // io.EOF; Write and Read after Close give io.EOF; WaitForClose and both Stops return; the goroutine
 // count settles.
@@ -760,11 +984,15 @@ func runUnrelLocal(id int, variant string, oneP bool) (okRun bool) {
 	u, err := cm.CreateUnreliableTube(common.ExecTube)
 	var st tubes.Tube
 	if err == nil {
+		got := make(chan tubes.Tube, 1)
 		ok, _, _ := within(3*time.Second, func() error {
 			t, e := sm.Accept()
-			st = t
+			got <- t
 			return e
 		})
+		if ok {
+			st = <-got
+		}
 		if !ok || st == nil {
 			err = fmt.Errorf("accept")
 		}
@@ -949,6 +1177,21 @@ func scenarios() []scen {
 }
 
 func child(from, to int) {
+	if from == -4 { // full sender queue of a Reliable tube
+		k := 0
+		for rep := 0; rep < hv.Scale(1, 5); rep++ {
+			for _, vr := range []struct {
+				v string
+				n int
+			}{{"slow", 7000}, {"blocked", 3000}, {"slow", 1500}} {
+				if !runFullQueue(k, vr.v, vr.n) {
+					return
+				}
+				k++
+			}
+		}
+		return
+	}
 	if from == -2 || from == -3 { // locally created unreliable tubes; -3: one P
 		oneP := from == -3
 		if oneP {
@@ -1001,6 +1244,7 @@ func main() {
 	jobs <- job{-1, 0}
 	jobs <- job{-2, 0}
 	jobs <- job{-3, 0}
+	jobs <- job{-4, 0}
 	for i := 0; i < len(all); i += batch {
 		jobs <- job{i, i + batch}
 	}
